@@ -1170,6 +1170,12 @@ def run(ctx):
             raise common.InfraError("degenerate distribution: a version named like a recognised tag was set up in fewer than 3 of %d cases" % ctx.evaluations)
         if ctx.evaluations >= 300 and not any(k.startswith("top_table_unsetup_line=") for k in h):
             raise common.InfraError("degenerate distribution: no unsetup line in an expanded table among %d cases" % ctx.evaluations)
+        nb = h.get("hyp_blocksOK=True", 0) + h.get("hyp_blocksOK=False", 0)
+        if nb >= 100 and h.get("hyp_blocksOK=True", 0) < 0.8 * nb:
+            raise common.InfraError("degenerate distribution: the scope condition of C17_exact_actions_blocks holds on only %d of %d expansions"
+                                    % (h.get("hyp_blocksOK=True", 0), nb))
+        if h.get("cli_checked", 0) >= 100 and not all(h.get("cli_mode=%s" % m) for m in set(CLI_MODES)):
+            raise common.InfraError("degenerate distribution: an `eups expandtable` destination mode was never exercised")
         if h.get("exact_block=pins", 0) < 0.3 * ctx.evaluations:
             raise common.InfraError("degenerate distribution: only %d of %d expansions have a non-empty exact block" % (h.get("exact_block=pins", 0), ctx.evaluations))
 
